@@ -182,13 +182,6 @@ Proof.
   rewrite !round_div_raw_shift by assumption. reflexivity.
 Qed.
 
-(* the cast is the identity on a point *)
-Definition pt_in_i32 (p : point) : bool := in_i32 (px p) && in_i32 (py p).
-
-(* `ip` does not reach the saturating cast: colinear, or the rounded quotient fits an i32 *)
-Definition isect_nosat (ip : iparams) : bool :=
-  (ip_den ip =? 0) || pt_in_i32 (ip_intersection_raw ip).
-
 Lemma ip_intersection_nosat ip : isect_nosat ip = true ->
   ip_intersection ip =
   if ip_den ip =? 0 then IColinear
@@ -468,10 +461,6 @@ Proof.
   destruct (extents (L m e) w so) as [[l r]|]; reflexivity.
 Qed.
 
-(* `fn intersections` uses the rounded point of an IntersectionParams only when nearly_colinear_has_error
-   is false; the saturating cast is therefore irrelevant when the check fires *)
-Definition isect_used_nosat (ip : iparams) : bool := nearly_colinear_has_error ip || isect_nosat ip.
-
 Definition used_point (ip : iparams) (fallback : point) : option (point * side) :=
   match ip_intersection ip with
   | IColinear => None
@@ -512,10 +501,6 @@ Qed.
 Definition tr_isects (d : point) (r : point * side * point) : point * side * point :=
   (padd (fst (fst r)) d, snd (fst r), padd (snd r) d).
 
-(* no cast is reached by a used point, for the left and for the right pair of edges *)
-Definition edges_nosat (fl fr sl sr : line) : bool :=
-  isect_used_nosat (ip_from_lines sl fl) && isect_used_nosat (ip_from_lines sr fr).
-
 Lemma intersections_translate fl fr sl sr d :
   edges_nosat fl fr sl sr = true ->
   edges_nosat (translate_line fl d) (translate_line fr d) (translate_line sl d) (translate_line sr d) = true ->
@@ -555,14 +540,6 @@ Proof.
   - destruct (negb (le_check_side (le_from_line fl) (l_end sl) SRight)); [|reflexivity].
     destruct (_ <=? _); reflexivity.
 Qed.
-
-(* the no-saturation hypothesis of LineJoin::from_points, read off the model: for both pairs of thick-line
-   edges, the rounded intersection fits an i32 whenever it is used *)
-Definition join_nosat (start mid end_ : point) (w : Z) (so : stroke_offset) : bool :=
-  match extents (L start mid) w so, extents (L mid end_) w so with
-  | Some (fl, fr), Some (sl, sr) => edges_nosat fl fr sl sr
-  | _, _ => true
-  end.
 
 Lemma lj_from_points_translate s m e w so d :
   join_nosat s m e w so = true ->
@@ -811,14 +788,6 @@ Definition tr_pt (d : point) (p : point) : point := padd p d.
 Definition tr_win (d : point) (t : point * point * point) : point * point * point :=
   (padd (fst (fst t)) d, padd (snd (fst t)) d, padd (snd t) d).
 
-(* no saturating cast is reached in the join of a window of three vertices, before and after the move *)
-Definition win_nosat (w : Z) (so : stroke_offset) (d : point) (t : point * point * point) : bool :=
-  join_nosat (fst (fst t)) (snd (fst t)) (snd t) w so &&
-  join_nosat (padd (fst (fst t)) d) (padd (snd (fst t)) d) (padd (snd t) d) w so.
-
-Definition poly_nosat (pts : list point) (w : Z) (d : point) : bool :=
-  forallb (win_nosat w SONone d) (windows3 pts).
-
 (* conversion must not evaluate these (they contain the whole parallels walk) when it compares folded and unfolded
    forms of the list functions below: unfold them last *)
 Strategy 100 [win_nosat join_nosat].
@@ -1020,7 +989,6 @@ Proof.
 Qed.
 
 (* coordinates the real code can hold at all; and the smaller range in which Rectangle::rows does not saturate *)
-Definition jbig : Z := 536870912. (* 2^29 *)
 Definition jpt_big (p : point) : Prop := - jbig <= px p <= jbig /\ - jbig <= py p <= jbig.
 Definition seg_ok (t : thick_segment) : Prop :=
   jpt_big (l_start (fst (ts_edges t))) /\ jpt_big (l_end (fst (ts_edges t))) /\
@@ -1132,6 +1100,21 @@ Qed.
 Definition poly_box_ok (pts : list point) (w : Z) : Prop :=
   match thick_segment_iter pts w with Some segs => Forall seg_ok segs | None => True end.
 
+(* the computable form in Model/Join.v implies it *)
+Lemma jpt_bigb_ok p : jpt_bigb p = true -> jpt_big p.
+Proof. unfold jpt_bigb, jpt_big. lia. Qed.
+Lemma seg_okb_ok t : seg_okb t = true -> seg_ok t.
+Proof.
+  unfold seg_okb, seg_ok. intros H.
+  apply andb_true_iff in H as [H H4]. apply andb_true_iff in H as [H H3]. apply andb_true_iff in H as [H1 H2].
+  repeat split; apply jpt_bigb_ok; assumption.
+Qed.
+Lemma poly_box_okb_ok pts w : poly_box_okb pts w = true -> poly_box_ok pts w.
+Proof.
+  unfold poly_box_okb, poly_box_ok. destruct (thick_segment_iter pts w) as [segs|]; [|trivial].
+  intros H. apply Forall_forall. intros t Ht. apply seg_okb_ok. rewrite forallb_forall in H. apply H, Ht.
+Qed.
+
 Lemma flat_map_map {A B C} (f : B -> list C) (g : A -> B) l : flat_map f (map g l) = flat_map (fun x => f (g x)) l.
 Proof. induction l as [|x t IH]; [reflexivity|]. cbn. rewrite IH. reflexivity. Qed.
 
@@ -1206,3 +1189,19 @@ Proof.
   destruct bsegs as [|s rest]; [exfalso; exact (thick_segment_iter_nonempty _ _ _ _ _ TI eq_refl)|].
   f_equal. inversion B1; subst. inversion B2; subst. apply segments_bounding_box_tr; assumption.
 Qed.
+
+(* the composition theorems with the single computable hypothesis poly_hyps of Model/Join.v *)
+Lemma poly_hyps_split pts w d : poly_hyps pts w d = true ->
+  poly_nosat pts w d = true /\ poly_box_ok pts w /\ poly_box_ok (map (tr_pt d) pts) w.
+Proof.
+  unfold poly_hyps. intros H. apply andb_true_iff in H as [H H3]. apply andb_true_iff in H as [H1 H2].
+  split; [exact H1|]. split; apply poly_box_okb_ok; assumption.
+Qed.
+
+Lemma poly_thick_points_tr_hyps w d pts t : poly_hyps pts w d = true ->
+  poly_thick_points (map (tr_pt d) pts) t w = option_map (map (tr_pt d)) (poly_thick_points pts t w).
+Proof. intros H. destruct (poly_hyps_split _ _ _ H) as [A [B C]]. apply poly_thick_points_tr; assumption. Qed.
+
+Lemma poly_thick_rects_tr_hyps w d pts : poly_hyps pts w d = true ->
+  poly_thick_rects (map (tr_pt d) pts) w = option_map (map (fun r => translate_rect r d)) (poly_thick_rects pts w).
+Proof. intros H. destruct (poly_hyps_split _ _ _ H) as [A [B C]]. apply poly_thick_rects_tr; assumption. Qed.
